@@ -15,6 +15,8 @@ hint = {
  "h": "Prefer a change that only matters under a NON-DEFAULT configuration or a rarely used constructor option / functional option / config field (or a particular combination of two options), or that affects only ONE of several sibling entry points (the Ctx variant versus the plain one, a convenience wrapper, a bulk or batch variant, a package-level helper versus the method); with default configuration and through the most commonly used entry point everything must behave exactly as before.",
  "i": "Prefer a change in the LIFECYCLE of the mechanism: construction, lazy initialisation, Close/Stop/Drain/shutdown, use after close, closing twice, operations racing with close, re-creation under the same name or key, or state that should be reset (or must NOT be reset) when an object is reused. Steady-state behaviour of a freshly constructed object that is never closed must stay identical to the original.",
  "j": "Prefer a change in how TIME or ORDER is handled: a timestamp taken at the wrong moment (before instead of after an operation), a deadline/TTL/interval computed from the wrong base, events handled in the wrong order when two arrive in the same tick/batch, a result published before the state it describes is complete, or a stale snapshot used after an update. It must need a specific ordering or a specific time gap to manifest; the orders and gaps the existing tests use must behave as before.",
+ "k": "Prefer a change that only matters for LEGAL BUT UNUSUAL BEHAVIOUR OF THE CALLER'S OWN CODE: a user-supplied callback, handler, loader or function argument that calls back into the same object or package from inside the callback (re-entrancy), hands over its result early and keeps running, is still running when the next step of the mechanism starts, calls a cancel/finish/return function twice or late, returns a typed-nil or wrapped or sentinel error, panics with an unusual value, or passes nil / empty / zero / aliased arguments that the documentation allows. Ordinary callbacks that just compute and return must behave exactly as before.",
+ "l": "Prefer a change that only matters at SCALE or after a long history: a size, count or duration far larger than anything the existing tests use (thousands of keys or items in flight, a buffer or batch that grows past a threshold, a counter that wraps, a capacity that is reached only after many operations, a history long enough for a cache, pool, free-list or compaction step to kick in), where small and short uses behave exactly as before. Avoid thresholds so large that a test would need more than a few seconds or more than a few hundred MB to reach them.",
  "c": "Prefer a change in one of the *secondary* files listed below (a call site, wrapper, middleware, interceptor, adapter, helper or convenience entry point of the mechanism) rather than in its core data structure, and one that needs an unusual but legal input, configuration or sequence to manifest.",
 }[variant]
 extra = ""
